@@ -114,6 +114,18 @@ def explore_init(case):
                     if d > 1e-9 or maxabs(x0[3:]) != 0 or np.linalg.norm(x0[:3]) > 1 + 1e-12:
                         res.fail(site="mrp.initialize", clause="returns_generating_attitude_or_error_code", cls=cls,
                                  detail=dict(v=v, decl=decl, incl=incl, B=B, x0=x0, rotation_error=d), sub="init", case=case)
+    # gravity and magnetic field exactly (anti)parallel along every direction of the lattice: the attitude is not observable, so the
+    # call must be refused (round-off pushes |cos| of the separation angle to either side of 1 depending on the direction)
+    for v in rvs:
+        R = ref.rot(v)
+        g_b = sens_accel(R)
+        for sc in (0.37, -0.37, 1.0 / 98.0):
+            res.count("evaluations")
+            x0, code = f(g_b, sc * g_b, 0.0)
+            x0, code = arr(x0).reshape(-1), float(code)
+            if not math.isfinite(code) or not np.all(np.isfinite(x0)) or code == 0:
+                res.fail(site="mrp.initialize", clause="degenerate_input_refused" if (math.isfinite(code) and np.all(np.isfinite(x0))) else "never_nan",
+                         cls="degenerate:B_parallel_g", detail=dict(v=v, g_b=g_b, scale=sc, x0=x0, code=code), sub="init", case=case)
     if part == 0:
         # degenerate inputs: must give a non-zero code or a finite state, never NaN
         R = ref.rot(np.array([0.3, -0.2, 0.5]))
@@ -282,6 +294,13 @@ def explore_correct(case):
                     ys.append(("rotated%g" % ang, sens_accel(R @ ref.rot(axs[3] * ang))))
                 for gm in (0.0, 5.0, 8.7, 8.9, 10.7, 10.9, 47.0):
                     ys.append(("magnitude%g" % gm, sens_accel(R, gm) if gm else np.zeros(3)))
+                # correct magnitude but exactly perpendicular / opposite to the predicted gravity direction (innovation angle pi/2, pi)
+                gb = sens_accel(R)
+                for k, e in enumerate((np.array([1.0, 0, 0]), np.array([0.3, -0.5, 0.8]))):
+                    u = np.cross(gb, e)
+                    if np.linalg.norm(u) > 1e-6:
+                        ys.append(("perpendicular%d" % k, G0 * u / np.linalg.norm(u)))
+                ys.append(("opposite", -gb))
                 for tag, y in ys:
                     res.count("evaluations")
                     res.nontrivial.add(hash((x.tobytes(), wname, tag, "a")))
